@@ -3,7 +3,7 @@
 //!
 //!   u<i>   (i < number of declarations)  a source file holding exactly declaration i
 //!   u100   empty file                     u101  source text without iso literal
-//!   u102   a malformed iso literal        u103  declarations 0 and 1 in one file (u0 if there is only one)
+//!   u102   a malformed iso literal        u103  declarations 0 and 1 in one file
 //!   u200   the generated schema           u201  the schema plus an unused type (valid)
 //!   u202   the schema plus garbage (schema parse error)
 //!   u300   the generated schema extensions     u301  the same plus a comment line
